@@ -102,27 +102,25 @@ theorem c07a_refDiags_eq_CB (env : Env) (inherit : Nat) (existing : List (Str ×
         ⟨(((existing[refTo]?).map (·.2)).getD Modifiers.empty).bits &&& inherit⟩)
         env existing name mods location modLoc dm dup := rfl
 
-set_option maxHeartbeats 4000000 in
+theorem c07a_A_map {β γ : Type} (f : β → γ) (m : A α β) (s : Col α) : (f <$> m) s = (f (m s).1, (m s).2) := rfl
+
+/-- sub-second proof (wave 6): one `simp` pass over the monad layer, a split on NEW, REF and the name lookup, then
+    the remaining `if`s on the two modes are split on both sides and closed by `simp_all` (the pattern of
+    `c07v_resolveReferenceCB_val`); no destructuring of the collector state, no heartbeat option. -/
 theorem c07a_resolveReferenceCB_exact (cbOf : Nat → Nat) (env : Env) (container : String) (inherit : Nat)
     (existing : List (Str × Modifiers)) (name : Str) (mods : Modifiers) (location modLoc : Span) (s : Col α) :
     (resolveReferenceCB cbOf env container inherit existing name mods location modLoc s).2.diags.toList =
       s.diags.toList ++ refDiagsCB cbOf env existing name mods location modLoc s.defineMode s.duplicateMode ∧
     (resolveReferenceCB cbOf env container inherit existing name mods location modLoc s).2 =
       { s with diags := (resolveReferenceCB cbOf env container inherit existing name mods location modLoc s).2.diags } := by
-  obtain ⟨a1, a2, a3, a4, a5, a6, a7, a8, a9, a10, a11, a12, dm, dup, a15, a16, a17, a18, a19, a20⟩ := s
   unfold resolveReferenceCB refDiagsCB
-  cases hsn : sameNameIdx env existing name with
-  | none =>
-    cases hn : mods.contains Modifiers.NEW <;> cases hr : mods.contains Modifiers.REF <;>
-      cases dm <;> cases dup <;>
-      simp +instances only [A_bind, A_pure, A_get, A_ite, aerr, awarn, A_modify, hn, hr, hsn] <;>
-      (try split) <;> simp [adiag]
-  | some refTo =>
-    cases hc : (cbOf refTo != 0) <;>
-      cases hn : mods.contains Modifiers.NEW <;> cases hr : mods.contains Modifiers.REF <;>
-      cases dm <;> cases dup <;>
-      simp +instances only [A_bind, A_pure, A_get, A_ite, aerr, awarn, A_modify, hn, hr, hsn, hc] <;>
-      (try split) <;> simp [adiag]
+  simp +instances only [A_bind, A_pure, A_get, A_ite, aerr, awarn, A_modify]
+  cases hn : mods.contains Modifiers.NEW <;> cases hr : mods.contains Modifiers.REF <;>
+    cases hsn : sameNameIdx env existing name <;>
+    simp only [Bool.false_and, Bool.true_and, Bool.and_true, Bool.and_false, Bool.false_eq_true, if_false, if_true,
+      Bool.true_or, Bool.false_or, Bool.not_true, Bool.not_false, Option.isSome_none, Option.isSome_some,
+      Option.isNone_none, Option.isNone_some, Bool.or_false, Bool.or_true] <;>
+    (repeat' split) <;> (try simp +instances only [c07a_A_map, A_modify, A_pure, A_bind]) <;> simp_all [adiag]
 
 /-- `resolve_reference` pushes exactly `refDiags` and changes nothing else -/
 theorem c07a_resolveReference_exact (env : Env) (container : String) (inherit : Nat)
@@ -136,7 +134,6 @@ theorem c07a_resolveReference_exact (env : Env) (container : String) (inherit : 
 
 /-! which diagnostic is in the list, by kind -/
 
-set_option maxHeartbeats 2000000 in
 theorem c07a_refDiagsCB_kinds (cbOf : Nat → Nat) (env : Env) (existing : List (Str × Modifiers)) (name : Str)
     (mods : Modifiers) (location modLoc : Span) (dm : DefineMode) (dup : DuplicateMode) :
     ((∃ d ∈ refDiagsCB cbOf env existing name mods location modLoc dm dup, d.kind = "reference-not-found") ↔
